@@ -36,12 +36,23 @@ crosscorr step adds documents of the same class for the encoder model (encodecor
 documents, and decorated / group_by / typed documents of gen_multi2 in which a section is repeated under the same body
 object with its frame's columns permuted).  Lean: Props/C02encshare.lean (a section's removed positions are looked up
 in its own column list; no other section enters).
+
+Documents nshared.. of a run are the *non-ASCII cell text* class (gen_unicode / gen_multi_unicode; harness/unitext.py):
+data cells — and page_by / subline_by values, displayed as cells or removed from the table — whose text holds
+characters at and around every range boundary a text writer decides on (U+007F/0080, U+00FF/0100, U+07FF/0800,
+U+7FFF/8000, U+D7FF/E000, U+FFFD..FFFF/U+10000/10001, U+103FF/10400, plane edges, U+10FBFF/10FC00, U+10FFFD..10FFFF)
+and random BMP / astral characters: alone in a cell, after the sentinel, between ASCII, next to each other, with blanks
+around; under every strategy, text_convert on / off / per column, single- and multi-section.  Every fifth document is a
+sweep with one row per boundary point.  The reader decodes the Unicode escapes (negative values, surrogate pairs) to code points, so
+the oracle compares each cell with the value's display text exactly.  The crosscorr step carries the same family in
+one document in four (encodecorr.unicode_cells).
 """
 from __future__ import annotations
 
+import re
 import string
 
-from .. import common, docgen, laygen, layfamily, rtfread
+from .. import common, docgen, laygen, layfamily, rtfread, unitext
 
 MANIFEST = dict(
     text="Lean theorems over the layout model (pagination + per-page slices + cumulative re-slicing + page "
@@ -61,7 +72,9 @@ MANIFEST = dict(
          "the section's OWN column list, wherever it stands and whatever the other sections are — tied by documents "
          "whose sections are given the very same RTFBody / header objects with the key columns at per-section positions.",
     note="Cell text equality is checked on the observation (reader decodes the bytes); that the escaper's bytes "
-         "decode to the text is C10's theorem. str() of values, polars slicing and pydantic are parameters. "
+         "decode to the text is C10's theorem; the check itself reads cells with characters at and around every "
+         "range boundary of the escaping (7-bit, one byte, signed 16-bit, surrogate block, first / last surrogate "
+         "pairs) and random BMP / astral characters back and compares them exactly. str() of values, polars slicing and pydantic are parameters. "
          "Unconverted cells hold printable ASCII without \\ { } (text_convert off writes the text as raw RTF); "
          "converted cells hold conversion-neutral text, as the property's quantifier says. group_by is outside C02. "
          "Column names are arbitrary distinct strings (a polars frame admits no equal names); names with \\ { } are "
@@ -95,6 +108,13 @@ RULE = ("seeded tagged tables (0..45 rows, 1..4 data columns incl. padded and bl
         "independent positions per section, frames of equal shape with the key column moved, equal shape and position, "
         "other row or column counts, data columns under the same names permuted or under own names, per-column "
         "text_justification / text_format; the same class against the encoder model (cross-encoder step); "
+        "plus documents (single-section under every strategy, key columns displayed or removed; multi-section) whose "
+        "data cells and page_by / subline_by values hold non-ASCII text: every boundary point of the text writer with "
+        "its neighbours (U+007E–0081, 009F–00A1, 00AD, 00B1, 00FE–0101, 07FF/0800, 7FFE–8001, D7FE/D7FF/E000/E001, "
+        "FEFF, FFFC–FFFF, 10000–10002, 103FE–10401, 1FFFF/20000, FFFFF/100000, 10FBFF/10FC00, 10FFFD–10FFFF — each of "
+        "them in every run: one document in five has one row per point, the character alone in a cell and between "
+        "ASCII) and random BMP / astral characters, alone, after the sentinel, between ASCII, adjacent, blank-padded, "
+        "with text_convert on / off / per column; the same family in one document in four of the cross-encoder step; "
         "non-trivial = ≥ 2 pages; distinct by (strategy, nrow, rows per page)")
 
 SAFE_OFF = "".join(c for c in string.printable[:94] if c not in "\\{}")  # printable ASCII without \ { }
@@ -581,6 +601,213 @@ def gen_multi_shared(rng):
     return spec, info
 
 
+# ----------------------------------------------------------------------------- cell texts beyond ASCII
+# Data cells and page_by / subline_by values with characters at and around every range boundary a text writer decides
+# on (harness/unitext.py): 7-bit / one byte / signed 16-bit / surrogate block / one UTF-16 unit or a pair / which
+# surrogate / the last code point, plus random BMP and astral characters.  The reader decodes \uN escapes (negative
+# values, surrogate pairs) back to code points, so the oracle compares every cell with the value's display text exactly.
+
+UNI_STRATEGIES = ["plain", "plain", "page_by", "page_by_np", "page_by_np", "page_by_np_first", "subline", "subline_page_by"]
+
+
+def _fit(text, fallback, cw):
+    """`text` if it stays well inside one line of a column cw inches wide (the layout model's line estimate is not the
+    subject here), else the fallback"""
+    return text if laygen.measure(text) <= 0.7 * cw else fallback
+
+
+def _uni_convert(rng, ncols):
+    """text_convert of a document of the class: on (the default), off, or a per-column vector — the texts are
+    conversion-neutral, so every cell reads back verbatim under each"""
+    r = rng.random()
+    if r < 0.45:
+        return None, "on"
+    if r < 0.75:
+        return False, "off"
+    return [rng.random() < 0.5 for _ in range(ncols)], "per-column"
+
+
+def _uni_keys(rng, rows, key_idx, shown, cw, labels):
+    """give distinct values of the key columns a suffix of the family — the same value gets the same suffix, so the
+    groups (and their contiguity) are exactly the ones drawn; '-----' stays the divider"""
+    for j in key_idx:
+        if rng.random() < 0.4:
+            continue
+        suffix = {}
+        for r in rows:
+            v = r[j]
+            if not isinstance(v, str) or v == "-----":
+                continue
+            if v not in suffix:
+                suffix[v] = ""
+                if rng.random() < 0.7:
+                    shape, t = unitext.draw_text(rng, v, kmax=2)
+                    t = _fit(t, v + unitext.boundary_char(rng), cw) if j in shown else t
+                    suffix[v] = t[len(v):]
+                    labels.add("unicode-key:" + ("displayed-cell" if j in shown else "removed-column"))
+                    labels.update("unicode-key-cp:" + c for c in unitext.classes(t))
+            r[j] = v + suffix[v]
+
+
+def _uni_cells(rng, rows, data_idx, cw, labels, tag_of, sweep=None):
+    """rewrite data cells (frame column indices data_idx; the first keeps its sentinel in front) with texts of the
+    family.  `sweep` = one boundary point per row: the second data column holds it alone, the third between ASCII."""
+    nd = len(data_idx)
+    kinds = ["tag+uni" if rng.random() < 0.6 else "tag"]
+    kinds += [rng.choice(["uni", "uni", "uni", "uni-tagged", "tag", "int"]) for _ in range(nd - 1)]
+    if sweep is not None and nd >= 2:
+        kinds[1] = "sweep-bare"
+        if nd >= 3:
+            kinds[2] = "sweep-between"
+    for i, r in enumerate(rows):
+        for j, kind in enumerate(kinds):
+            cj = data_idx[j]
+            tag = tag_of(i, j)
+            if isinstance(r[cj], str) and " " in r[cj].strip():
+                continue  # a long (multi-line) text stays
+            if kind.startswith("sweep"):
+                ch = chr(sweep[i % len(sweep)])
+                r[cj] = ch if kind == "sweep-bare" else "x" + ch + "y"
+                labels.update("unicode-cp:" + c for c in unitext.classes(ch))
+                continue
+            if j > 0 and rng.random() < 0.08:
+                r[cj] = None
+                continue
+            if kind == "int":
+                r[cj] = rng.randint(-999, 99999)
+                continue
+            if kind == "tag" or rng.random() < 0.2:
+                continue
+            keep_tag = j == 0 or kind == "uni-tagged" or rng.random() < 0.3
+            shape, t = unitext.draw_text(rng, tag if keep_tag else None)
+            fb = (tag if keep_tag else "") + unitext.boundary_char(rng)
+            t = _fit(t, fb, cw)
+            r[cj] = t
+            labels.add("unicode-cell:" + (shape if t is not fb else "tag+" if keep_tag else "bare"))
+            labels.update("unicode-cp:" + c for c in unitext.classes(t))
+    return kinds
+
+
+def gen_unicode(rng, k):
+    """single-section document under every strategy whose data cells — and page_by / subline_by values, displayed as
+    cells (new_page + pageby_row='column') or removed from the table — hold non-ASCII text of the boundary family.
+    Every fifth document is a *sweep*: one row per boundary point (all of unitext.BOUNDARY_POINTS, shuffled), the
+    character alone in a cell and between ASCII in another."""
+    sweep = None
+    kw = dict(strategy=rng.choice(UNI_STRATEGIES), n=rng.randint(1, 40))
+    if k % 5 == 0:
+        sweep = list(unitext.BOUNDARY_POINTS)
+        rng.shuffle(sweep)
+        kw = dict(strategy=UNI_STRATEGIES[(k // 5) % len(UNI_STRATEGIES)], n=len(sweep), ndata=rng.randint(3, 4),
+                  long_rows=False, nrow=rng.randint(8, 30))
+    spec, info = laygen.gen_spec(rng, dividers=(k % 4 == 0), nulls=0.0, **kw)
+    cols = spec["df"]["cols"]
+    rows = spec["df"]["rows"]
+    first = len(info["hier"])
+    labels = {"unicode-doc"} | ({"unicode-sweep-doc"} if sweep else set())
+    tc, how = _uni_convert(rng, len(cols))
+    if tc is not None:
+        spec["body"]["text_convert"] = tc
+    labels.add("unicode-convert:" + how)
+    cw = info["col_total"] / len(info["displayed"])
+    shown = {cols.index(c) for c in info["displayed"]}
+    info["kinds"] = _uni_cells(rng, rows, list(range(first, len(cols))), cw, labels, lambda i, j: f"r{i}c{j}", sweep)
+    _uni_keys(rng, rows, list(range(first)), shown, cw, labels)
+    di = [cols.index(c) for c in info["displayed"]]
+    info["expect"] = [[docgen.display(r[c]) for c in di] for r in rows]
+    info["labels"] = sorted(labels)
+    info["unicode"] = True
+    return spec, info
+
+
+def gen_multi_unicode(rng):
+    """multi-section document: sections with page_by (spanning rows) / subline_by / neither, the removed column
+    anywhere among the columns, data cells and group values of the boundary family"""
+    nsec = rng.randint(2, 3)
+    frames, bodies, headers, expect = [], [], [], []
+    base = 0
+    labels = {"unicode-doc", "unicode-multi-doc"}
+    for s in range(nsec):
+        n = rng.randint(1, 10)
+        nd = rng.randint(1, 3)
+        mode = rng.choice(["page_by", "page_by", "subline", "none", "none"])
+        key = {"page_by": "PB0", "subline": "SL0"}.get(mode)
+        cols = [f"S{s}COL{j}" for j in range(nd)]
+        if key:
+            cols.insert(rng.randint(0, nd), key)
+        ncols = len(cols)
+        data_idx = [c for c in range(ncols) if cols[c] != key]
+        keys = docgen.run_keys(rng, n, [("G0" if mode == "page_by" else "SB") + x for x in "abcd"], 1, 4) if key else None
+        rows = [[keys[i] if cols[c] == key else f"r{base + i}c{data_idx.index(c)}" for c in range(ncols)]
+                for i in range(n)]
+        cw = 6.25 / nd
+        _uni_cells(rng, rows, data_idx, cw, labels, lambda i, j, b=base: f"r{b + i}c{j}")
+        if key:
+            _uni_keys(rng, rows, [cols.index(key)], set(), cw, labels)
+        frames.append(dict(cols=cols, rows=rows))
+        body = {}
+        tc, how = _uni_convert(rng, ncols)
+        if tc is not None:
+            body["text_convert"] = tc
+        labels.add("unicode-convert:" + how)
+        if mode == "page_by":
+            body["page_by"] = [key]
+        elif mode == "subline":
+            body["subline_by"] = [key]
+        bodies.append(body)
+        headers.append([dict(text=[f"HD{s}c{j}" for j in range(nd)])] if rng.random() < 0.6 else [None])
+        expect += [[docgen.display(r[c]) for c in data_idx] for r in rows]
+        base += n
+    spec = dict(kind="multi", df=frames, body=bodies, headers=headers, page=dict(nrow=rng.randint(6, 30)),
+                footnote=dict(text="FTNOTE") if rng.random() < 0.4 else None)
+    info = dict(strategy="multi", header_mode="multi", n=base, model=False, page_by=None, subline_by=None,
+                expect=expect, labels=sorted(labels), unicode=True)
+    return spec, info
+
+
+_KEYVAL = re.compile(r"^((?:G\d+|SB)[a-z]\d*)")
+
+
+def _plain_text_steps(case):
+    """simpler variants of a failing document of the non-ASCII text class (info['expect'] kept consistent)"""
+    import copy
+
+    cols = case["spec"]["df"]["cols"]
+    first = len(case["info"]["hier"])
+    n = len(case["spec"]["df"]["rows"])
+
+    def variant(cells):
+        c = copy.deepcopy(case)
+        rows = c["spec"]["df"]["rows"]
+        changed = False
+        for i, j in cells:
+            v = rows[i][j]
+            if not isinstance(v, str) or v.isascii() and "\x7f" not in v:
+                continue
+            if j >= first:
+                w = f"r{i}c{j - first}"
+            else:
+                m = _KEYVAL.match(v)
+                if not m:
+                    continue
+                w = m.group(1)
+            rows[i][j] = w
+            changed = True
+        if not changed:
+            return None
+        di = [cols.index(x) for x in c["info"]["displayed"]]
+        c["info"]["expect"] = [[docgen.display(r[x]) for x in di] for r in rows]
+        return c
+
+    steps = [[(i, j) for i in range(n - 1) for j in range(first, len(cols))],
+             [(i, j) for i in range(n) for j in range(first)]]
+    steps += [[(n - 1, j)] for j in range(first, len(cols))]
+    for cells in steps:
+        cand = variant(cells)
+        if cand is not None:
+            yield cand
+
+
 class C02(layfamily.Family):
     prop, tag = "C02", "c02"
     cross_shared = 0.3       # crosscorr: + 30 % documents of the shared-component class (encodecorr2.gen_multi_shared2)
@@ -596,11 +823,17 @@ class C02(layfamily.Family):
         # … and the documents after those are the edge-column-name class
         return self.nmixed(tier) + (240 if tier == "quick" else 3000)
 
-    def ndocs(self, tier):
+    def nshared(self, tier):
         # … and the documents after those are the shared-component class (one RTFBody / header list for several sections)
         return self.nnames(tier) + (160 if tier == "quick" else 2000)
 
+    def ndocs(self, tier):
+        # … and the documents after those are the non-ASCII cell text class (harness/unitext.py)
+        return self.nshared(tier) + (200 if tier == "quick" else 2500)
+
     def gen(self, rng, k, tier):
+        if k >= self.nshared(tier):
+            return gen_multi_unicode(rng) if k % 5 == 4 else gen_unicode(rng, k)
         if k >= self.nnames(tier):
             return gen_multi_shared(rng)
         if k >= self.nmixed(tier):
@@ -652,6 +885,10 @@ class C02(layfamily.Family):
             if cand is not None:
                 yield cand
         spec = case["spec"]
+        if case["info"].get("unicode") and spec.get("kind", "table") == "table":
+            # a document of the non-ASCII text class: the rows before the last one back to their sentinels, then the
+            # group values, then the last row's cells one at a time
+            yield from _plain_text_steps(case)
         if spec.get("kind") == "multi" and spec.get("share") and len(spec["df"]) > 2:
             # a document of the shared-component class: the same document without its last section
             import copy
